@@ -15,7 +15,7 @@ def run(ctx, out):
     out.rule = ("generated source trees copied with -n into destinations pre-populated with colliding entries (regular files, "
                 "directories, FIFOs, live and dangling symlinks) at the first / a middle / the last entry of the walk order and "
                 "at any depth, or with no collision; both drivers, workers 1-4, random thread holds so workers are active when the "
-                "walker meets the collision; every pre-existing destination entry is compared before/after (kind, bytes, mode, owner, xattrs, mtime); plus source links whose text designates an existing, "
+                "walker meets the collision; every pre-existing destination entry is compared before/after (kind, bytes, mode, owner, xattrs, mtime); plus operands whose names are prefixes of one another (data / data.old, lib / lib64), source links whose text designates an existing, "
                 "unmapped destination entry under --ownership / --fsync / --no-perms / --no-timestamps; non-trivial = at "
                 "least one collision; distinct = (tree, collisions, driver)")
     d0 = ctx.work.fresh("c08")
@@ -269,6 +269,52 @@ def run(ctx, out):
                 if a is None or any(e.get(x) != a.get(x) for x in ("kind", "size", "sha", "mode", "mtime_ns")):
                     out.violation("--no-clobber: the existing entry dst/victim was overwritten through a symlink created by the "
                                   "same run (two sources map onto dst/x; exit %d)" % r.exit, rep)
+                shutil.rmtree(d, ignore_errors=True)
+
+    # several operands whose NAMES are prefixes of one another (data, data.old, data2; lib, lib64): an operand that the run
+    # itself creates first says nothing about the next one, which exists already and must stop the run untouched
+    pk = 0
+    for driver in ("parfile", "parblock"):
+        for (first, later, lkind) in [("data", "data.old", "file"), ("lib", "lib64", "dir"), ("a", "ab", "file"), ("x.d", "x.d.bak", "dir"),
+                                      ("n", "n\xff".encode("latin-1").decode("utf-8", "surrogateescape"), "file")]:
+            for order in ("new-first", "existing-first"):
+                pk += 1
+                d = os.path.join(d0, "pfx%d" % pk)
+                os.makedirs(os.path.join(d, "dest"))
+                os.makedirs(os.path.join(d, first, "inner"))
+                open(os.path.join(d, first, "inner", "f"), "wb").write(b"fresh")
+                if lkind == "file":
+                    open(os.path.join(d, later), "wb").write(b"new content of the later operand")
+                    open(os.path.join(d, "dest", later), "wb").write(b"EXISTING, must stay")
+                    os.chmod(os.path.join(d, "dest", later), 0o600)
+                else:
+                    os.makedirs(os.path.join(d, later, "inner"))
+                    open(os.path.join(d, later, "keep.txt"), "wb").write(b"new keep")
+                    open(os.path.join(d, later, "inner", "deep.txt"), "wb").write(b"new deep")
+                    os.makedirs(os.path.join(d, "dest", later, "inner"))
+                    open(os.path.join(d, "dest", later, "keep.txt"), "wb").write(b"EXISTING keep")
+                    open(os.path.join(d, "dest", later, "inner", "deep.txt"), "wb").write(b"EXISTING deep")
+                before = xcp.snapshot(os.fsencode(d))
+                ops = [first, later] if order == "new-first" else [later, first]
+                argv = [ctx.bins["xcp"], "-r", "-n", "--driver", driver, "-w", str(rng.choice([1, 2, 4]))] + ops + ["dest"]
+                r = xcp.run_supervised(sup, argv, d, d, tag="pf", timeout_ms=30000)
+                after = xcp.snapshot(os.fsencode(d))
+                out.case(("prefix-named-operands", driver, os.fsencode(first), order), True)
+                out.count("prefix_named_operands")
+                rep = dict(kind="operands whose names are prefixes of one another", argv=[os.fsencode(a).decode("latin-1") for a in argv[1:]], exit=r.exit, stderr=r.stderr[-200:])
+                bad = None
+                for p_, e in before.items():
+                    if not p_.startswith(b"dest/"):
+                        continue
+                    a = after.get(p_)
+                    keys = ("kind", "mode", "uid", "gid", "size", "sha", "link") + (("mtime_ns",) if e["kind"] == "file" else ())
+                    if a is None or any(e.get(x) != a.get(x) for x in keys):
+                        bad = "%r was %s" % (p_, "removed" if a is None else "altered")
+                        break
+                if bad:
+                    out.violation("--no-clobber: " + bad + " (exit %d)" % r.exit, rep)
+                elif r.exit == 0:
+                    out.violation("--no-clobber: an operand maps onto an existing destination entry but exit was 0", rep)
                 shutil.rmtree(d, ignore_errors=True)
 
     # source links whose TEXT, read from the place the copy of the link lands, designates an entry that already exists in
